@@ -207,6 +207,17 @@ Mutated mutate(const Config &cfg, const Line &valid) {
                                     "all_of_partial", "any_of_two", "one_of_none", "one_of_two", "differ_equal", "disjoint_common",
                                     "unique_duplicate", "fixed_overflow", "tuple_short", "bitset_range", "deprecated_use", "too_few_values", "stray_value", "overlong_key"};
   m.name = oneOf(kinds);
+  // rules that only few configurations carry get their mutation more often where they exist
+  std::vector<std::string> relevant;
+  for (auto &h : cfg.hcs) {
+    if (h.type == HC_ALL_OF) relevant.push_back("all_of_partial");
+    else if (h.type == HC_ANY_OF) relevant.push_back("any_of_two");
+    else if (h.type == HC_ONE_OF) { relevant.push_back("one_of_none"); relevant.push_back("one_of_two"); }
+    else if (h.type == HC_DIFFER) { relevant.push_back("differ_equal"); if (h.args.size() > 2) relevant.push_back("differ_equal"); }
+    else relevant.push_back("disjoint_common");
+  }
+  for (auto &a : cfg.args) for (auto &ct : a.constraints) relevant.push_back(ct.first == CT_REQUIRES ? "missing_required" : "excluded_after_excluder");
+  if (!relevant.empty() && pick(35)) m.name = oneOf(relevant);
   auto usesOf = [&](int a) { std::vector<size_t> v; for (size_t i = 0; i < m.line.size(); ++i) if (m.line[i].arg == a) v.push_back(i); return v; };
   auto insertAt = [&](const Use &u) { size_t p = *range<size_t>(0, m.line.size()); m.line.insert(m.line.begin() + static_cast<long>(p), u); };
   auto freshUse = [&](int a) {   // a valid single use of argument a
@@ -365,9 +376,17 @@ Mutated mutate(const Config &cfg, const Line &valid) {
     for (auto &h : cfg.hcs) if (h.type == want) hs.push_back(&h);
     if (!hs.empty()) {
       const HConstraint &h = *oneOf(hs);
-      int x = h.args[0], y = h.args[1];
+      // any two of the constraint's arguments; the others are used or not at random (an unused one in between must not
+      // stop the comparison)
+      size_t ix = *range<size_t>(0, h.args.size() - 1), iy = *range<size_t>(0, h.args.size() - 2);
+      if (iy >= ix) ++iy;
+      int x = h.args[ix], y = h.args[iy];
       Line l;
-      for (auto &u : m.line) if (u.arg != x && u.arg != y) l.push_back(u);
+      for (auto &u : m.line) {
+        if (u.arg == x || u.arg == y) continue;
+        if (want == HC_DIFFER && std::find(h.args.begin(), h.args.end(), u.arg) != h.args.end() && pick(60)) continue;   // drop other members
+        l.push_back(u);
+      }
       m.line = l;
       Use ux = freshUse(x), uy = freshUse(y);
       if (want == HC_DIFFER) uy.elems = ux.elems;
